@@ -98,6 +98,16 @@ CLAIMED = {
                 "NOT covered (stated): equality of results across dask schedulers / worker counts for the loaders as a whole - dask's own execution semantics are not encoded; shared mutable arrays written inside tasks.",
         "ref": "DESIGN.md §4 C10",
     },
+    "C13": {
+        "text": "PARTIAL (the serialised bytes are not decided): tables with symbolic positions and orientations (z3 constants in Object columns of the real polars) go through the real to_dataframe / from_dataframe: layout z, y, x, zvec, yvec, xvec followed by the features, "
+                "row r = molecule r, exact inverse (also with renamed coordinate columns; 0, 1, 3 molecules; with and without features; caller's column lists and the source untouched). The real to_csv / to_parquet / to_file / from_csv / from_parquet / from_file run over an in-memory "
+                "stand-in for the polars writers and readers: what is written is exactly that frame with the caller's float_precision / compression options, what is read is handed to from_dataframe with the caller's column names and reader options, "
+                "and to_file / from_file choose the same format for the same suffix (10 suffix classes incl. upper case and double suffixes).",
+        "note": "Assumed, NOT decided: polars' compiled CSV / Parquet serialisers (decimal formatting to float_precision, dtype inference, zstd, nulls/booleans in CSV) - no source or IR to execute; the writer/reader stand-in has the contract 'same format -> the written frame, other format -> failure'. "
+                "scipy's as_rotvec/from_rotvec near rotation angles 0 and pi and the float32 rounding of the rotation vector are outside (SymRotation inverse pair). The solver's part is small (tag equalities, the rotation-vector inverse pair); the value is the execution of the real code on tagged tables. "
+                "The replay oracle round-trips real files (csv, pq, parquet, txt, no suffix; ints, floats, strings, booleans; float_precision=2; renamed columns) in a temporary directory.",
+        "ref": "DESIGN.md §5 / §11.8 (not-applicable at design time; the encodable part was built in the build round)",
+    },
     "C18": {
         "text": "PARTIAL (the numerical kernels are not decided): the Python code acryo wraps around the SVD and k-means kernels is executed on symbolic data. (A) real DaskPCA with da.linalg.svd as a contract stub: the matrix handed to the SVD is the column-centred data; "
                 "mean_, components_, singular_values_, explained_variance_(ratio_) are the column mean and the leading n of what the SVD returned; transform(Y) = (Y - mean_) Vt[:n]^T; inverse_transform; and, with the SVD contract instantiated in a solver-checked ring identity, "
@@ -148,7 +158,6 @@ CLAIMED = {
 }
 
 NOT_APPLICABLE = {
-    "C13": "decided by polars' compiled CSV/Parquet serialisers (decimal formatting, zstd, dtype inference): no source/IR to execute symbolically; a stub would assume the property",
 }
 
 PENDING = {
